@@ -18,6 +18,8 @@ StartOpts == {[dl |-> d, stop |-> KillNow, nb |-> nb, rin |-> 0, rout |-> 0, rer
              \cup (IF Mode = "io" THEN {[dl |-> 2, stop |-> KillNow, nb |-> TRUE, rin |-> 0, rout |-> 0, rerr |-> R_PIPE, input |-> -1,
                                          term |-> 0, self |-> TRUE, prog |-> "/bin/c"]} ELSE {})
 Sinks == {<<<<0, 0>>, <<0, 0>>>>} \cup {<<<<k, -5>>, <<0, 0>>>> : k \in SinkFails} \cup {<<<<0, 0>>, <<k, 7>>>> : k \in SinkFails}
+         \* a sink whose own result happens to be the library's "closed pipe" value: passed through like any other
+         \cup {<<<<k, EPIPE>>, <<0, 0>>>> : k \in SinkFails}
          \* the library's string sink: empty or non-empty before, allocation failing at growth step k (0 = never)
          \cup {<<<<k, ENOMEM, "str", l0>>, <<0, 0>>>> : k \in SinkFails \cup {0}, l0 \in {0, 3}}
          \cup {<<<<0, 0>>, <<k, ENOMEM, "str", l0>>>> : k \in SinkFails \cup {0}, l0 \in {0, 3}}
